@@ -277,6 +277,24 @@ func c12PairXYZ(a, b [3]float32) (kind, msg string) {
 	return "", "ok"
 }
 
+// c12PairXYYLum checks the xyY constructor on whites of arbitrary luminance against the float64
+// Bradford matrix of the corresponding XYZ whites.
+func c12PairXYYLum(a, b ciexyy.Color) (kind, msg string) {
+	ca, pan := c12Call(func() ciexyz.ChromaticAdaptation { return ciexyz.AdaptBetweenXYYWhitePoints(a, b) })
+	if pan != nil {
+		return "panic", fmt.Sprintf("AdaptBetweenXYYWhitePoints(%v,%v) panicked: %v", a, b, pan)
+	}
+	m := libMat(matrix.Matrix3(ca))
+	av := refcolor.XYYToXYZ(float64(a.X), float64(a.Y), float64(a.YY))
+	bv := refcolor.XYYToXYZ(float64(b.X), float64(b.Y), float64(b.YY))
+	ref := refcolor.Bradford(av, bv)
+	// the library goes through float32 XYZ whites: 3e-7 relative on each white
+	if d := m.MaxAbsDiff(ref); !(d <= 2e-6*math.Max(1, ref.NormInf())) {
+		return "matrix-xyy", fmt.Sprintf("xyY adaptation %v -> %v differs from the float64 Bradford matrix by %.3g\n got %v\n ref %v", a, b, d, m, ref)
+	}
+	return "", "ok"
+}
+
 func c12Triple(a, b, c [2]float32) (kind, msg string) {
 	ab := libMat(matrix.Matrix3(ciexyz.AdaptBetweenXYYWhitePoints(xyy(a), xyy(b))))
 	bc := libMat(matrix.Matrix3(ciexyz.AdaptBetweenXYYWhitePoints(xyy(b), xyy(c))))
@@ -405,6 +423,66 @@ func runC12(r *core.Run) {
 					}
 				}
 			}
+		}
+		// a luminance ladder: the library's own D50 / D65 values (and two ordinary whites) against whites
+		// 1/4096 to 100 000 times as bright, both ways, through both constructors
+		{
+			bases := [][3]float32{{ciexyz.D50.X, ciexyz.D50.Y, ciexyz.D50.Z}, {ciexyz.D65.X, ciexyz.D65.Y, ciexyz.D65.Z}, {1.09850, 1, 0.35585}, {0.9, 1, 0.9}}
+			for _, f := range []float32{1.0 / 4096, 0.001, 0.01, 0.18, 0.5, 3, 10, 80, 100, 400, 1000, 2000, 4000, 10000, 100000} {
+				for bi, base := range bases {
+					for oi, o := range bases {
+						if oi > 1 && bi > 1 {
+							continue
+						}
+						scaled := [3]float32{o[0] * f, o[1] * f, o[2] * f}
+						for _, pr := range [][2][3]float32{{base, scaled}, {scaled, base}} {
+							n++
+							nt++
+							if kind, msg := c12PairXYZ(pr[0], pr[1]); kind != "" {
+								r.Violate("pairxyz", kind+"/luminance-ladder", msg, c12Case{Kind: kind, XYZ: [][3]float32{pr[0], pr[1]}})
+							}
+						}
+					}
+				}
+				for _, pr := range [][2]ciexyy.Color{{ciexyy.D50, {X: ciexyy.D65.X, Y: ciexyy.D65.Y, YY: f}}, {{X: ciexyy.D65.X, Y: ciexyy.D65.Y, YY: f}, ciexyy.D50}, {ciexyy.D65, {X: 0.44757, Y: 0.40745, YY: f}}} {
+					n++
+					nt++
+					if kind, msg := c12PairXYYLum(pr[0], pr[1]); kind != "" {
+						r.Violate("pairxyz", kind+"/luminance-ladder", msg, c12Case{Kind: kind, XYZ: [][3]float32{{pr[0].X, pr[0].Y, pr[0].YY}, {pr[1].X, pr[1].Y, pr[1].YY}}})
+					}
+				}
+			}
+		}
+		// dim whites whose three tristimulus values add up to exactly 1 in float32 (they look like bare
+		// chromaticity coordinates), and xyY whites whose luminance equals their y
+		{
+			var sumOne [][3]float32
+			for _, xy := range [][2]float32{{0.3125, 0.328125}, {0.34375, 0.359375}, {0.3127, 0.3290}, {0.3457, 0.3585}, {0.44757, 0.40745}, {1.0 / 3, 1.0 / 3}, {0.25, 0.5}, {0.5, 0.25}} {
+				z := 1 - xy[0] - xy[1]
+				if xy[0]+xy[1]+z == 1 {
+					sumOne = append(sumOne, [3]float32{xy[0], xy[1], z})
+				}
+			}
+			ordinary := [][3]float32{{0.9642, 1, 0.8251}, {0.95047, 1, 1.08883}, {ciexyz.D50.X, ciexyz.D50.Y, ciexyz.D50.Z}}
+			for i, s1 := range sumOne {
+				for _, o := range append(append([][3]float32{}, ordinary...), sumOne[(i+1)%len(sumOne)]) {
+					for _, pr := range [][2][3]float32{{s1, o}, {o, s1}} {
+						n++
+						nt++
+						if kind, msg := c12PairXYZ(pr[0], pr[1]); kind != "" {
+							r.Violate("pairxyz", kind+"/sum-one", msg, c12Case{Kind: kind, XYZ: [][3]float32{pr[0], pr[1]}})
+						}
+					}
+				}
+				for _, pr := range [][2]ciexyy.Color{{{X: s1[0], Y: s1[1], YY: s1[1]}, ciexyy.D50}, {ciexyy.D65, {X: s1[0], Y: s1[1], YY: s1[1]}}} {
+					n++
+					nt++
+					if kind, msg := c12PairXYYLum(pr[0], pr[1]); kind != "" {
+						r.Violate("pairxyz", kind+"/sum-one", msg, c12Case{Kind: kind, XYZ: [][3]float32{{pr[0].X, pr[0].Y, pr[0].YY}, {pr[1].X, pr[1].Y, pr[1].YY}}})
+					}
+				}
+			}
+			r.Obs("whites_summing_to_exactly_one", len(sumOne))
 		}
 		// whites on the line x + y = 1, where Z is exactly zero (monochromatic reds beyond about 700 nm
 		// lie there; the Bradford blue response 0.0389 X - 0.0685 Y is still positive for y < 0.36)
